@@ -137,7 +137,7 @@ impl Property for C02 {
         "C02"
     }
     fn rule(&self) -> String {
-        "random network x closed extended formula (wild-cards; domains on any quantifier, nested and repeated labels; full operator set incl. EW/AW) x context sets inside the unit set (empty / full / colour-independent / colour-dependent / empty for some colours only), compared point-wise with the explicit evaluator through the 4 extended entry points; plus, for a second generated body and a label, the three README equivalences (both sides through the tool, and each side against the evaluator). Non-trivial: the main formula has a wild-card or domain and (a domain label set is empty for some but not all valid colours, or a quantified body does not mention its variable, or domains are nested).".into()
+        "random network x closed extended formula (wild-cards; domains on any quantifier, nested and repeated labels; full operator set incl. EW/AW) x context sets inside the unit set (empty / full / colour-independent / colour-dependent / empty for some colours only), compared point-wise with the explicit evaluator through the 4 extended entry points; plus, for a second generated body and a label, the three README equivalences (both sides through the tool, and each side against the evaluator). Deterministic stage: the same equivalences (plus directly stated expected sets) with a domain whose BDD has 2^11 nodes on a network of 22 frozen variables. Non-trivial: the main formula has a wild-card or domain and (a domain label set is empty for some but not all valid colours, or a quantified body does not mention its variable, or domains are nested).".into()
     }
     fn assumptions(&self) -> Vec<String> {
         vec![
@@ -147,7 +147,7 @@ impl Property for C02 {
         ]
     }
     fn cases(&self, tier: Tier) -> u32 {
-        tier.pick(25_000, 800_000)
+        tier.pick(6_000, 400_000)
     }
     fn strategy(&self, tier: Tier) -> BoxedStrategy<RawSem> {
         raw_sem(tier.pick(3, 4), 2..=2, 5, tier.pick(14, 20))
@@ -183,6 +183,106 @@ impl Property for C02 {
         }
     }
     fn replay(&self, case: &Value) -> Verdict {
+        if case.get("large_domain_pairs").is_some() {
+            return match large_domain_case(case["large_domain_pairs"].as_u64().unwrap_or(11) as usize) {
+                Ok(rep) => Verdict::Pass(rep),
+                Err(f) => Verdict::Fail(f),
+            };
+        }
         replay_with(case, check)
     }
+    fn extra_stages(&self, tier: Tier, _seed: u64, stats: &mut Stats) -> Option<Failure> {
+        // domains and wild-card sets with BDDs of thousands of nodes (no explicit evaluator at this
+        // size: the README equivalences and a direct set-level expectation decide)
+        let sizes = tier.pick(vec![11usize], vec![6, 9, 11, 12]);
+        for pairs in &sizes {
+            match large_domain_case(*pairs) {
+                Ok(rep) => stats.add(rep),
+                Err(f) => return Some(f),
+            }
+        }
+        stats.stages.insert("large-domains".into(), json!({"pairs": sizes}));
+        None
+    }
+}
+
+/// README equivalences with a domain whose BDD has about 2^pairs nodes, on a network of 2*pairs
+/// frozen variables (every state is a steady state, so EX/AX are the identity and the expected
+/// sets can be stated directly).
+fn large_domain_case(pairs: usize) -> Result<CaseReport, Failure> {
+    use biodivine_hctl_model_checker::evaluation::LabelToSetMap;
+    use biodivine_hctl_model_checker::mc_utils::get_extended_symbolic_graph;
+    use biodivine_hctl_model_checker::model_checking::model_check_extended_formula_dirty;
+    use biodivine_lib_param_bn::biodivine_std::traits::Set;
+    use biodivine_lib_param_bn::BooleanNetwork;
+    let n = 2 * pairs;
+    let name = |i: usize| format!("v{i:02}");
+    let aeon: String = (0..n).map(|i| format!("{0} -> {0}\n${0}: {0}\n", name(i))).collect();
+    let case_json = json!({"large_domain_pairs": pairs});
+    let fail = |class: &str, msg: String| Failure {
+        class: class.to_string(),
+        message: msg,
+        case: case_json.clone(),
+    };
+    let bn = BooleanNetwork::try_from(aeon.as_str()).map_err(|e| fail("C02:harness", e))?;
+    let g = get_extended_symbolic_graph(&bn, 1).map_err(|e| fail("C02:harness", e))?;
+    let vars: Vec<_> = bn.variables().collect();
+    let unit = g.mk_unit_colored_vertices();
+    // d: disjunction of v_i & v_(i+pairs) (about 2^pairs BDD nodes); p: v00 or v01 false
+    let mut d = g.mk_empty_colored_vertices();
+    for i in 0..pairs {
+        d = d.union(&unit.fix_network_variable(vars[i], true).fix_network_variable(vars[i + pairs], true));
+    }
+    let p = unit.fix_network_variable(vars[0], true).union(&unit.fix_network_variable(vars[1], false));
+    let mut ctx: LabelToSetMap = LabelToSetMap::new();
+    ctx.insert("d".into(), d.clone());
+    ctx.insert("p".into(), p.clone());
+    let run = |f: &str| -> Result<biodivine_lib_param_bn::symbolic_async_graph::GraphColoredVertices, Failure> {
+        match guard(|| model_check_extended_formula_dirty(f, &g, &ctx)) {
+            Ok(Ok(r)) => Ok(r),
+            Ok(Err(e)) => Err(fail("C02:unexpected-error", format!("`{f}`: {e}"))),
+            Err(pn) => Err(fail(&format!("C02:panic:{}", panic_site(&pn)), format!("`{f}`: {pn}"))),
+        }
+    };
+    let d_subset_p = d.is_subset(&p);
+    let d_meets_p = !d.intersect(&p).is_empty();
+    // (formula with a domain, README-equivalent formula without, expected set)
+    let checks: Vec<(&str, &str, biodivine_lib_param_bn::symbolic_async_graph::GraphColoredVertices)> = vec![
+        ("!{x} in %d%: %p%", "!{x}: (%d% & %p%)", d.intersect(&p)),
+        ("!{x} in %d%: AX {x}", "!{x}: (%d% & AX {x})", d.clone()),
+        (
+            "3{x} in %d%: (@{x}: AX %p%)",
+            "3{x}: (@{x}: (%d% & AX %p%))",
+            if d_meets_p { unit.clone() } else { g.mk_empty_colored_vertices() },
+        ),
+        (
+            "V{x} in %d%: (@{x}: %p%)",
+            "V{x}: (@{x}: (%d% => %p%))",
+            if d_subset_p { unit.clone() } else { g.mk_empty_colored_vertices() },
+        ),
+        ("V{x} in %d%: (@{x}: %d%)", "V{x}: (@{x}: (%d% => %d%))", unit.clone()),
+        ("V{x} in %d%: (%p% | ~{x})", "V{x}: ((@{x}: ~%d%) | %p% | ~{x})", p.union(&unit.minus(&d))),
+    ];
+    for (with_dom, without, want) in &checks {
+        let a = run(with_dom)?;
+        let b = run(without)?;
+        if a != b {
+            return Err(fail(
+                "C02:readme-equivalence:large-domain",
+                format!("domain with {} BDD nodes: `{with_dom}` and `{without}` evaluate to different sets ({} vs {} elements)", d.as_bdd().size(), a.approx_cardinality(), b.approx_cardinality()),
+            ));
+        }
+        if &a != want {
+            return Err(fail(
+                "C02:mismatch:large-domain",
+                format!("domain with {} BDD nodes: `{with_dom}` gives {} elements, expected {}", d.as_bdd().size(), a.approx_cardinality(), want.approx_cardinality()),
+            ));
+        }
+    }
+    Ok(CaseReport {
+        nontrivial: true,
+        key: hash_of(&("large-domain", pairs)),
+        classes: vec![format!("large-domain:{}-nodes", d.as_bdd().size())],
+        sample: json!({"network": format!("{n} frozen variables"), "domain_bdd_nodes": d.as_bdd().size(), "formulas": checks.iter().map(|c| c.0).collect::<Vec<_>>()}),
+    })
 }
